@@ -5,6 +5,7 @@ import (
 	"go/ast"
 	"go/printer"
 	"go/token"
+	"regexp"
 	"strconv"
 	"strings"
 )
@@ -342,6 +343,46 @@ func init() {
 			}
 		}
 
+		// --- the memo (property C09, follow-up): Hash's cache lookup, MoveHash/CopyHash/SetHash, ensureRelative.
+		// The bodies are compared as a whole against the shape the memo model in Model/C09.v was written from;
+		// the parameters the model takes from here are the copy flags and the forgotten-path prefix.
+		body := func(name string) string { return show(findFunc(f, "PathHasher", name).Body) }
+		expect := func(name, want string) {
+			if got := body(name); got != want {
+				failShape("PathHasher.%s changed shape:\n  got  %s\n  want %s", name, got, want)
+			}
+		}
+		expect("ensureRelative", `{ if strings.HasPrefix(path, hasher.root) { return strings.TrimLeft(strings.TrimPrefix(path, hasher.root), "/") } return path }`)
+		expect("SetHash", `{ hasher.mutex.Lock() hasher.memo[path] = hash hasher.mutex.Unlock() hasher.storeHash(path, hash) }`)
+		expect("Hash", `{ path = hasher.ensureRelative(path) if !recalc { hasher.mutex.RLock() cached, present := hasher.memo[path] hasher.mutex.RUnlock() if present && cached != nil { return cached, nil } else if present { store = false recalc = true } } if !PathExists(path) { return nil, fmt.Errorf("cannot calculate hash for %s: %s", path, os.ErrNotExist) } hasher.mutex.Lock() if pending, present := hasher.wait[path]; present { hasher.mutex.Unlock() <-pending.Ch return pending.Hash, pending.Err } pending := &pendingHash{Ch: make(chan struct{})} hasher.wait[path] = pending hasher.mutex.Unlock() result, err := hasher.hash(path, store, !recalc, timestamp) hasher.mutex.Lock() if err == nil { hasher.memo[path] = result } delete(hasher.wait, path) hasher.mutex.Unlock() pending.Hash = result pending.Err = err close(pending.Ch) return result, err }`)
+		flagOf := func(name string) string {
+			m := regexp.MustCompile(`^\{ hasher\.moveOrCopyHash\(oldPath, newPath, (true|false)\) \}$`).FindStringSubmatch(body(name))
+			if m == nil {
+				failShape("PathHasher.%s is not a plain call of moveOrCopyHash(oldPath, newPath, <literal>): %s", name, body(name))
+			}
+			return m[1]
+		}
+		copyFlag, moveFlag := flagOf("CopyHash"), flagOf("MoveHash")
+		mc := findFunc(f, "PathHasher", "moveOrCopyHash")
+		if sig := show(mc.Type); sig != "func(oldPath, newPath string, copy bool)" {
+			failShape("moveOrCopyHash signature changed: %s", sig)
+		}
+		mm := regexp.MustCompile(`^\{ oldPath = hasher\.ensureRelative\(oldPath\) newPath = hasher\.ensureRelative\(newPath\) hasher\.mutex\.Lock\(\) defer hasher\.mutex\.Unlock\(\) if oldHash, present := hasher\.memo\[oldPath\]; present \{ hasher\.memo\[newPath\] = oldHash if !copy && strings\.HasPrefix\(oldPath, ("[^"\\]*")\) \{ delete\(hasher\.memo, oldPath\) \} \} else if copy \{ hasher\.memo\[newPath\] = nil \} \}$`).FindStringSubmatch(show(mc.Body))
+		if mm == nil {
+			failShape("PathHasher.moveOrCopyHash changed shape: %s", show(mc.Body))
+		}
+		tmpPrefix, err := strconv.Unquote(mm[1])
+		if err != nil {
+			failShape("moveOrCopyHash: prefix literal %s", mm[1])
+		}
+		bytesOf := func(x string) string {
+			out := []string{}
+			for i := 0; i < len(x); i++ {
+				out = append(out, strconv.Itoa(int(x[i])))
+			}
+			return "[" + strings.Join(out, "; ") + "]%N"
+		}
+
 		list := func(xs []string) string { return "[" + strings.Join(xs, "; ") + "]" }
 		return "From Coq Require Import List NArith. Import ListNotations.\n" +
 			"(* what is written to the hash for one entry: the marker constant, the file's bytes, the link's\n" +
@@ -355,6 +396,11 @@ func init() {
 			"Definition walk_file : list emit := " + list(walkFile) + ".\n" +
 			"Definition walk_dir : list emit := " + list(walkDir) + ".\n" +
 			"Definition walk_sorted : bool := " + sorted + ".\n" +
-			"Definition walk_follows_links : bool := " + follows + ".\n"
+			"Definition walk_follows_links : bool := " + follows + ".\n" +
+			"(* the memo: moveOrCopyHash(old, new, copy) as called by CopyHash / MoveHash, and the path prefix whose\n" +
+			"   entry MoveHash forgets *)\n" +
+			"Definition copy_hash_copies : bool := " + copyFlag + ".\n" +
+			"Definition move_hash_copies : bool := " + moveFlag + ".\n" +
+			"Definition memo_forget_prefix : list N := " + bytesOf(tmpPrefix) + ". (* " + tmpPrefix + " *)\n"
 	}
 }
